@@ -14,6 +14,9 @@ def parseEv (t : String) : Option (Option Ev) :=
   | ["Ce", k, r] => do some (some (.finish (← k.toNat?) (r == "ok")))
   | ["Wc", n, p, o] => do some (some (.wireReq (← n.toNat?) (← p.toNat?) (← o.toNat?)))
   | ["Wr", n, p, e] => do some (some (.wireResp (← n.toNat?) (← p.toNat?) (← e.toInt?)))
+  | ["Wt", p] => do some (some (.taint (← p.toNat?)))
+  | ["Td", t] => do some (some (.topicDeleted (← t.toNat?)))
+  | ["ERRdelete"] => some none   -- the delete request failed: the topic's partitions stay unjudged (Td was logged), nothing else changes
   | ["CO", p, o] => do some (some (.clientCommitted (← p.toNat?) (← o.toInt?)))
   | ["GC", p, o] => do some (some (.groupCommitted (← p.toNat?) (← o.toInt?)))
   | ["Q"] => some (some .quiesce)
